@@ -69,9 +69,10 @@ func init() {
 			}
 			cv := []string{"cvc5", "z3", "z3new"}
 			// family 2: one lexer step from an arbitrary state, partitioned by the opcode ahead and the option set
-			lex := func(op, mx, inchunk, validate, emit, lim, cb int) {
-				js = append(js, &Job{Module: "mcap", Harness: "VC10LexStep", Params: P("op", op, "max", mx, "inchunk", inchunk, "validate", validate, "emit", emit, "lim", lim, "cb", cb), TimeoutS: 600, Solvers: cv})
+			lexl := func(op, mx, inchunk, validate, emit, lim, cb, long int) {
+				js = append(js, &Job{Module: "mcap", Harness: "VC10LexStep", Params: P("op", op, "max", mx, "inchunk", inchunk, "validate", validate, "emit", emit, "lim", lim, "cb", cb, "long", long), TimeoutS: 600, Solvers: cv})
 			}
+			lex := func(op, mx, inchunk, validate, emit, lim, cb int) { lexl(op, mx, inchunk, validate, emit, lim, cb, 0) }
 			lmax := 40
 			if tier == "thorough" {
 				lmax = 56
@@ -84,8 +85,10 @@ func init() {
 			}
 			lex(256, lmax, 0, 0, 0, 0, 0)
 			for _, v := range [][3]int{{0, 0, 0}, {1, 0, 0}, {0, 1, 0}, {1, 0, 20}, {0, 0, 20}} {
-				lex(6, lmax+8, 0, v[0], v[1], v[2], 0)
+				lex(6, lmax+16, 0, v[0], v[1], v[2], 0) // a chunk record needs 49 bytes before its records start
 			}
+			lexl(9, lmax, 0, 0, 0, 0, 0, 1)
+			lexl(9, lmax, 0, 0, 0, 20, 0, 1)
 			for _, v := range [][2]int{{0, 0}, {0, 1}, {20, 1}, {20, 0}} {
 				lex(9, lmax, 0, 0, 0, v[0], v[1])
 			}
@@ -118,7 +121,7 @@ func init() {
 		},
 		bounds: map[string]any{
 			"quick": map[string]any{"leaf_parsers": "16 entry points (14 Parse*, Message.PopulateFrom, parseAttachmentReader incl. reading the data and both CRC accessors) on 0..64 bytes, all symbolic incl. the length (ParseChannel 48, ParseMetadata 40)",
-				"one_lexer_step": "Lexer.Next once from a lexer over 1..40 arbitrary bytes (48 for chunks) whose first byte is constrained to one opcode per job: every opcode 0x00..0x0F and 'any opcode >= 0x10' (one job each; a partition of all first bytes); chunk records with validation on/off and EmitChunks; attachments with/without callback; with MaxRecordSize = MaxDecompressedChunkSize = 20 the allocation ceiling is 40 bytes, otherwise 2 GiB; EmitInvalidChunks/ComputeAttachmentCRCs symbolic; per-loop unwinding bound 16384",
+				"one_lexer_step": "Lexer.Next once from a lexer over 1..40 arbitrary bytes (56 for chunks) whose first byte is constrained to one opcode per job: every opcode 0x00..0x0F and 'any opcode >= 0x10' (one job each; a partition of all first bytes); chunk records with validation on/off and EmitChunks; attachments with a callback, and without one (record exactly filling the input, or claiming more than the input holds - up to 2^64-1); with MaxRecordSize = MaxDecompressedChunkSize = 20 the allocation ceiling is 40 bytes, otherwise 2 GiB; EmitInvalidChunks/ComputeAttachmentCRCs symbolic; per-loop unwinding bound 256",
 				"indexed_reader_units": "readRecord on 0..32 arbitrary bytes; the whole Reader API (Info, GetAttachmentReader, GetMetadata, Messages, NextInto x4) on a real written file in which ONE field is replaced by an arbitrary 64-bit value: summary_offset_start, message_index_length, attachment-index length, the chunk record's length, chunk_length, the length of the last record inside a chunk"},
 			"thorough": map[string]any{"leaf_parsers": "0..128 bytes", "one_lexer_step": "56/64 bytes; inside a chunk (LimitedReader with symbolic remaining count) for schema/channel/message/attachment", "indexed_reader_units": "indexedMessageIterator.loadChunk over an arbitrary file of 0..64 bytes with every ChunkIndex field symbolic, then the pending messages yielded, in all three orders (a few slice-bounds queries at symbolic offsets time out on all three solvers and are reported as inconclusive: that is why this unit is not in the quick tier); all 11 hostile fields x 3 orders (summary_start, chunk_start_offset, attachment/metadata offsets, uncompressed_size, first summary record length: heavy, any solver timeout is reported as inconclusive)"}},
 		assumptions: commonAssumptions,
